@@ -371,6 +371,143 @@ func c03FlushScenario(kindA, kindB string, nB int, maxpend int, dotu bool, P int
 	}})
 }
 
+// c03ReuseScenario: a reactive client re-uses a tag the moment it has read the reply
+// carrying it (the server may not have retired the first request yet), optionally
+// flushes the second request while the implementation holds it, and re-uses the tag
+// a third time once the Rflush has arrived.
+func c03ReuseScenario(kindA, kindB string, flush string, maxpend int, dotu bool, P int) Scenario {
+	var s *sess
+	type sendEv struct {
+		at  int // replies seen when the request was written
+		msg *wire.Msg
+	}
+	var sends []sendEv
+	name := fmt.Sprintf("tag-reuse-on-reply[%s then %s] flush=%s maxpend=%d dotu=%v", kindA, kindB, flush, maxpend, dotu)
+	body := func() {
+		s = newSess(SrvOpt{Msize: 256, Dotu: dotu, Maxpend: maxpend, Flush: flush == "cancel"})
+		if flush == "cancel" {
+			s.fs.FlushMode = "cancel"
+		}
+		a := s.prepare(kindA, 10, 100)
+		b := s.prepare(kindB, 20, 100)
+		gate := vs.NewSem(0)
+		s.fs.Script[reqKey{0, 100, 1}] = &Action{Gate: gate}
+		s.setupN = len(s.c.Collect())
+		sends = nil
+		send := func(m *wire.Msg) {
+			sends = append(sends, sendEv{len(s.c.Collect()) - s.setupN, m})
+			s.c.Send(dotu, m)
+		}
+		has := func(tag uint16, n int) bool {
+			k := 0
+			for _, f := range s.c.Collect()[s.setupN:] {
+				if f.Msg != nil && f.Msg.Tag == tag {
+					k++
+				}
+			}
+			return k >= n
+		}
+		vs.Window(true)
+		send(a)
+		for !has(100, 1) {
+			if s.c.End.PeerClosed() {
+				vs.Fail("connection closed by the server")
+			}
+			s.c.End.WaitIncoming(len(s.c.End.Received()) + 1)
+		}
+		send(b)
+		if flush != "none" {
+			send(&wire.Msg{Type: wire.Tflush, Tag: 101, Oldtag: 100})
+		}
+		vs.Idle()
+		early := flush != "none" && has(101, 1)
+		if early && !has(100, 2) {
+			// the tag is free again as far as the client can tell: use it a third time
+			send(&wire.Msg{Type: wire.Tstat, Tag: 100, Fid: 0})
+			vs.Idle()
+		}
+		gate.Release()
+		vs.Idle()
+		vs.Window(false)
+		s.c.Collect()
+	}
+	check := stdCheck("C03", func(x *vs.Exec) *Viol {
+		frames := s.c.Frames[s.setupN:]
+		detail := map[string]any{"wire": strings.Split(framesString(frames), "\n"), "fslog": strings.Split(s.fs.logString(), "\n")}
+		bad := func(sig, msg string) *Viol {
+			var ss []string
+			for _, e := range sends {
+				ss = append(ss, fmt.Sprintf("after %d replies: %s", e.at, e.msg))
+			}
+			return &Viol{Sig: "C03/" + sig + "/tag-reuse", Msg: msg + "\nsent:\n  " + strings.Join(ss, "\n  ") + "\nreceived:\n" + framesString(frames), Detail: detail}
+		}
+		if len(s.c.Junk) > 0 {
+			return bad("truncated-or-garbled-frame", "the reply stream ends in bytes that are not a frame")
+		}
+		// replay sends and replies in the order the client saw them
+		outstanding := map[uint16]*wire.Msg{}
+		occ := map[uint16]int{} // requests sent so far per tag
+		cur := map[uint16]int{} // occurrence index of the outstanding request per tag
+		si := 0
+		for fi := 0; fi <= len(frames); fi++ {
+			for si < len(sends) && sends[si].at <= fi {
+				m := sends[si].msg
+				outstanding[m.Tag] = m
+				cur[m.Tag] = occ[m.Tag]
+				occ[m.Tag]++
+				si++
+			}
+			if fi == len(frames) {
+				break
+			}
+			f := frames[fi]
+			if f.Msg == nil {
+				return bad("malformed-frame", "unparseable frame: "+f.Err)
+			}
+			rq := outstanding[f.Msg.Tag]
+			if rq == nil {
+				return bad("reply-for-unknown-tag", fmt.Sprintf("reply %d (%v) carries tag %d, which no outstanding request has: the request that had it was answered or flushed before", fi, f.Msg, f.Msg.Tag))
+			}
+			delete(outstanding, f.Msg.Tag)
+			if rq.Type == wire.Tflush {
+				if f.Msg.Type != wire.Rflush {
+					return bad("wrong-type", fmt.Sprintf("Tflush answered by %v", f.Msg))
+				}
+				delete(outstanding, rq.Oldtag) // a flushed request gets no reply after the Rflush
+				continue
+			}
+			if f.Msg.Type != rq.Type+1 && f.Msg.Type != wire.Rerror {
+				return bad("wrong-type", fmt.Sprintf("%s answered by %v", rq, f.Msg))
+			}
+			got := renderReply(f.Msg)
+			ok := false
+			// the three uses of the tag name different fids: find the implementation's own answer by fid
+			// (a request flushed before it started never reaches the implementation)
+			for _, e := range s.fs.Log {
+				if e.Kind == "call" && e.Conn == 0 && e.Tag == rq.Tag && e.Fid == rq.Fid {
+					for _, r := range s.fs.resps(0, rq.Tag, e.Occ) {
+						if r.Reply == got {
+							ok = true
+						}
+					}
+				}
+			}
+			if !ok {
+				return bad("wrong-content", fmt.Sprintf("%s (use %d of tag %d): the reply on the wire %q is not what the implementation produced for it", rq, cur[rq.Tag]+1, rq.Tag, got))
+			}
+		}
+		for t, rq := range outstanding {
+			if rq.Type == wire.Tflush || flush == "none" || t != 100 {
+				return bad("reply-count-0", fmt.Sprintf("%s was never answered", rq))
+			}
+		}
+		return nil
+	}, nil)
+	return vsScenario(&VsSpec{Name: name, Body: body, Check: check, P: P, Sample: func() any {
+		return map[string]any{"replies": strings.Split(framesString(s.c.Frames[s.setupN:]), "\n")}
+	}})
+}
+
 func perms(xs []int) [][]int {
 	if len(xs) <= 1 {
 		return [][]int{append([]int(nil), xs...)}
@@ -415,6 +552,7 @@ func c03Scenarios(tier string) []Scenario {
 		}
 		add([]reqSpec{{"read", "gate"}, {"write", "gate"}, {"stat", "gate"}}, 0, true, true, 1)
 		out = append(out, c03FlushScenario("read", "stat", 1, 0, true, 2), c03FlushScenario("stat", "read", 2, 1, false, 2), c03FlushScenario("walk", "write", 1, 2, true, 2))
+		out = append(out, c03ReuseScenario("stat", "read", "none", 0, true, 2), c03ReuseScenario("stat", "read", "default", 0, false, 2), c03ReuseScenario("read", "stat", "cancel", 1, true, 2), c03ReuseScenario("walk", "write", "default", 2, false, 2))
 		return out
 	}
 	for a := 0; a < len(kinds); a++ {
@@ -434,6 +572,11 @@ func c03Scenarios(tier string) []Scenario {
 	for i, ka := range kinds {
 		out = append(out, c03FlushScenario(ka, kinds[(i+1)%len(kinds)], 1+i%2, i%3, i%2 == 0, 3))
 	}
+	for i, ka := range kinds {
+		for j, fl := range []string{"none", "default", "cancel"} {
+			out = append(out, c03ReuseScenario(ka, kinds[(i+2)%len(kinds)], fl, (i+j)%3, (i+j)%2 == 0, 3))
+		}
+	}
 	// many outstanding requests, default schedule and P=1
 	big := func(n int) []reqSpec {
 		var r []reqSpec
@@ -450,7 +593,7 @@ func c03Scenarios(tier string) []Scenario {
 func init() {
 	register(&Property{ID: "C03", Level: "model_checking",
 		Technique: "stateless model checking of the real server under a controlled scheduler (all schedules within a preemption bound)",
-		Rule:      "every schedule with at most P preemptions (P iterated 0..bound, select-case choices free) of server recv/worker/send goroutines + scripted implementation + releaser, per scenario (request kinds x scripts x release order x Maxpend x dialect x segmentation); distinct = distinct per-object operation orders (trace hash)",
+		Rule:      "every schedule with at most P preemptions (P iterated 0..bound, select-case choices free) of server recv/worker/send goroutines + scripted implementation + releaser, per scenario (request kinds x scripts x release order x Maxpend x dialect x segmentation; late answers of cancelled requests; a reactive client re-using a tag the moment its reply is read, with and without a Tflush of the second use and a third use after the Rflush); distinct = distinct per-object operation orders (trace hash)",
 		Assumptions: []string{"code between two synchronisation operations is atomic (sound for race-free executions; C19 checks race freedom)", "transport modelled as an unbounded reliable byte queue", "map iteration fixed to ascending key order"},
 		Scenarios:   c03Scenarios, QuickS: 100, ThoroughS: 1500})
 }
